@@ -481,7 +481,9 @@ class HistorySpec(BfsSpec):
         S.outcome(tuple(stored(st.nc)))
 
     def canon(self, st):
-        return tuple((n.name, n.octave, n.channel, n.velocity) for n in st.nc.notes)
+        # whole instance state of the real container (every attribute of it and of its notes), so
+        # that hidden state a changed library adds still separates states
+        return engine.deep_key(st.nc)
 
 
 def run_history(case):
